@@ -55,6 +55,10 @@ let dflt _ty = (N0, N0)
 let check_line (line : string) : unit =
   match String.index_opt line '\t' with
   | None -> ()
+  | Some tab when String.sub line (tab + 1) (String.length line - tab - 1) = "hang" ->
+      (* the harness watchdog: reads()/writes()/setup()/fetch() of this type did not come back *)
+      incr n_cases; incr n_oracle;
+      Printf.printf "O hang L0\t%s\n" (String.sub line 0 tab)
   | Some tab ->
       let case = String.sub line 0 tab in
       let real_s = String.sub line (tab + 1) (String.length line - tab - 1) in
